@@ -224,6 +224,8 @@ type drv struct {
 	racy  bool // this trace may write into the window of a pending cleanup in the known-finding pattern
 	big   bool // the shard is populated first (fill records): range deletes around the code's threshold
 	fill  int
+	feat  bool     // puts combine ownership with sequence keys / version conditions
+	base  []string // the keys the trace started with (prefixes of sequence puts); keys grows by the generated keys
 }
 
 func plainReq() m.Req { return m.Req{Puts: []m.Put{}, Dels: []m.Del{}, Rngs: []m.Rng{}} }
@@ -242,6 +244,9 @@ func (d *drv) write(last *m.SStep) m.Req {
 			}
 			if d.rng.Intn(6) == 0 {
 				p.Idx = append(p.Idx, m.IdxE{N: m.K("i"), K: m.K([]string{"u", "v"}[d.rng.Intn(2)])})
+			}
+			if d.feat {
+				d.features(last, &p)
 			}
 			if !d.racy && d.races(last, &p) {
 				// outside racy traces, stay out of the known-finding pattern: write the key as the session
@@ -274,6 +279,33 @@ func (d *drv) write(last *m.SStep) m.Req {
 	return r
 }
 
+// features combines the ownership of a put with the other things a put can ask for: a generated sequence
+// key (the request key is only the prefix; one delta per prefix, so that the generator never meets a key
+// with more parts than deltas - OxiaDb.tla!SeqStateError, C13's subject), a version condition (must not
+// exist / the current version / some other version).  Index entries are added by the caller.
+func (d *drv) features(last *m.SStep, p *m.Put) {
+	switch x := d.rng.Intn(10); {
+	case x < 3:
+		k := d.base[d.rng.Intn(len(d.base))]
+		if d.big && k == "a" {
+			return // the filler records "a-NNN" are in the sequence of the prefix "a"
+		}
+		p.Key, p.Pkey, p.Deltas = m.K(k), true, []int{1 + d.rng.Intn(3)}
+	case x < 5:
+		p.Exp = -1
+		if last != nil && d.rng.Intn(3) > 0 {
+			for _, r := range last.Recs {
+				if r.Key.S() == p.Key.S() {
+					p.Exp = r.Ver
+				}
+			}
+		}
+		if d.rng.Intn(6) == 0 {
+			p.Exp = d.rng.Intn(8)
+		}
+	}
+}
+
 // races mirrors Sessions.tla!Race for one put against the cleanups pending after the last step.
 func (d *drv) races(last *m.SStep, p *m.Put) bool {
 	if last == nil {
@@ -285,6 +317,15 @@ func (d *drv) races(last *m.SStep, p *m.Put) bool {
 			if k.S() == p.Key.S() {
 				listed = true
 			}
+			if len(p.Deltas) > 0 && strings.HasPrefix(k.S(), p.Key.S()+"-") {
+				return true
+			}
+		}
+		if len(p.Deltas) > 0 {
+			if p.Sess == pd.S {
+				return true
+			}
+			continue
 		}
 		if (listed && p.Sess != pd.S) || (!listed && p.Sess == pd.S) {
 			return true
@@ -301,6 +342,7 @@ func cmdDrive(args []string) int {
 	out := fs.String("out", "trace.ndjson", "")
 	racy := fs.Int("racy", 10, "one trace in this many may write into a cleanup window in the known-finding pattern (0: none)")
 	big := fs.Int("big", 6, "one trace in this many starts by populating the shard with 96..104 records (0: none)")
+	feat := fs.Int("feat", 0, "one trace in this many combines ephemeral puts with sequence keys and version conditions (0: none)")
 	maxLag := fs.Int("maxlag", 3, "a leader change elects a node whose DB lags its log by 0..maxlag entries")
 	_ = fs.Parse(args)
 	m.Quiet()
@@ -333,6 +375,8 @@ func cmdDrive(args []string) int {
 		if len(d.keys) == 0 {
 			d.keys = []string{"a"}
 		}
+		d.base = append([]string(nil), d.keys...)
+		d.feat = *feat > 0 && rng.Intn(*feat) == 0
 		reset := m.SStep{S: -1}
 		reset.A, reset.Off, reset.Lv = "Reset", -1, -1
 		emit(&reset)
@@ -399,6 +443,20 @@ func cmdDrive(args []string) int {
 			}
 			if st.A == "Create" {
 				d.ids = append(d.ids, st.S)
+			}
+			if st.A == "Write" {
+				// the generated keys become keys of the trace: later puts, deletes and point reads name them
+				for i, r := range st.Res.Puts {
+					if r.St == "OK" && len(st.Req.Puts[i].Deltas) > 0 && len(d.keys) < 16 {
+						known := false
+						for _, k := range d.keys {
+							known = known || k == r.Key.S()
+						}
+						if !known {
+							d.keys = append(d.keys, r.Key.S())
+						}
+					}
+				}
 			}
 			cp := st
 			last = &cp
